@@ -53,12 +53,15 @@ struct Base {
     payload: Vec<u8>,
     /// the main header records a SHA-256 payload digest (so a modified payload must be noticed)
     has_payload_digest: bool,
+    /// the main header names a payload digest algorithm the library cannot compute (SHA-3, unknown
+    /// numbers): verification cannot succeed, whatever the verifier says
+    unsupported_payload_algo: bool,
 }
 
 fn base_of(bytes: &[u8]) -> Option<Base> {
     let p = walk_package(bytes).ok()?;
     let has_payload_digest = p.hdr.get_strs(bytes, tag::PAYLOADDIGEST).map(|v| v.len() == 1).unwrap_or(false) && p.hdr.get_u32s(bytes, tag::PAYLOADDIGESTALGO).map(|v| v.first() == Some(&8)).unwrap_or(false) && bytes.len() > p.payload_start;
-    Some(Base { lead: bytes[..96].to_vec(), hdr: p.hdr.canonical_image(bytes), payload: bytes[p.payload_start..].to_vec(), has_payload_digest })
+    Some(Base { lead: bytes[..96].to_vec(), hdr: p.hdr.canonical_image(bytes), payload: bytes[p.payload_start..].to_vec(), has_payload_digest, unsupported_payload_algo: false })
 }
 
 const SIG_O: [&[u8]; 3] = [b"openpgp-signature-blob-number-one", b"openpgp-signature-blob-number-two!", b"openpgp-signature-blob-number-three"];
@@ -183,6 +186,9 @@ fn judge_shape(base: &Base, sh: &Shape, script: &[bool], default_answer: bool) -
         sh.pgp.as_ref().map(|v| if v.typ() == 7 { "bin" } else { "wrong-type" }).unwrap_or("absent"),
     );
     if res.is_ok() {
+        if base.unsupported_payload_algo {
+            out.push(("ok-with-unsupported-payload-digest-algorithm".to_string(), format!("verify_signature returns Ok although the payload digest is recorded with an algorithm the library cannot compute ({shape_class})")));
+        }
         if calls.is_empty() {
             out.push((format!("ok-without-verifier-call:openpgp={}", sh.openpgp_kind), format!("verify_signature returns Ok although the verifier was never consulted ({shape_class}, digests {})", sh.digests)));
         }
@@ -279,6 +285,15 @@ fn run(ctx: &Ctx, rep: &Report) {
     if bases.is_empty() {
         rep.inconclusive("no base package for the synthesised signature headers");
         return;
+    }
+    // hand-encoded bases whose (signed) main header announces a payload digest algorithm the library
+    // cannot compute: 12 and 14 are SHA3-256 / SHA3-512, 99 is nobody's
+    for algo in [12u32, 14, 99] {
+        let payload = b"payload of the unsupported-algorithm base".to_vec();
+        let mut items: Vec<(u32, Val)> = vec![(tag::NAME, Val::str("algo")), (tag::VERSION, Val::str("1")), (tag::RELEASE, Val::str("1")), (tag::ARCH, Val::str("noarch")), (tag::PAYLOADDIGEST, Val::StrArray(vec![sha256_hex(&payload).into_bytes()])), (tag::PAYLOADDIGESTALGO, Val::Int32(vec![algo]))];
+        items.sort_by_key(|(t, _)| *t);
+        let (he, hs) = layout_with_region(tag::HDR_REGION, &items);
+        bases.push(Base { lead: enc_lead("algo"), hdr: enc_header(&he, &hs), payload, has_payload_digest: false, unsupported_payload_algo: true });
     }
     let shapes = shapes();
     rep.count("a.shapes", shapes.len() as u64);
